@@ -2,7 +2,7 @@ use ckb_async_runtime::tokio::{self, task::block_in_place};
 use ckb_logger::{debug, info, warn};
 use ckb_shared::Shared;
 use ckb_stop_handler::{CancellationToken, new_tokio_exit_rx};
-use ckb_store::{ChainDB, ChainStore};
+use ckb_store::ChainStore;
 use ckb_types::{
     core::HeaderView,
     packed::{Byte32, CellOutput, OutPoint},
@@ -17,11 +17,11 @@ pub struct BlockFilter {
     shared: Shared,
 }
 
-struct WrappedChainDB<'a> {
-    inner: &'a ChainDB,
+struct WrappedChainDB<'a, S: ChainStore> {
+    inner: &'a S,
 }
 
-impl<'a> FilterDataProvider for WrappedChainDB<'a> {
+impl<'a, S: ChainStore> FilterDataProvider for WrappedChainDB<'a, S> {
     fn cell(&self, out_point: &OutPoint) -> Option<CellOutput> {
         self.inner
             .get_transaction(&out_point.tx_hash())
@@ -29,8 +29,8 @@ impl<'a> FilterDataProvider for WrappedChainDB<'a> {
     }
 }
 
-impl<'a> WrappedChainDB<'a> {
-    fn new(inner: &'a ChainDB) -> Self {
+impl<'a, S: ChainStore> WrappedChainDB<'a, S> {
+    fn new(inner: &'a S) -> Self {
         Self { inner }
     }
 }
@@ -119,11 +119,14 @@ impl BlockFilter {
                 .expect("header stored");
             #[cfg(ckb_verif)]
             verif::yield_point(block_number);
-            self.build_filter_data_for_block(&header);
+            self.build_filter_data_for_block(&**snapshot, &header);
         }
     }
 
-    fn build_filter_data_for_block(&self, header: &HeaderView) {
+    // The cells spent by the block are resolved through `snapshot`, in which the block is on the main chain:
+    // the live store may have reorganised since (a transaction is found by hash only while its block is attached),
+    // and a filter stored without the scripts of the spent cells would never be rebuilt.
+    fn build_filter_data_for_block<S: ChainStore>(&self, snapshot: &S, header: &HeaderView) {
         debug!(
             "Start building filter data for block: {}, hash: {:#x}",
             header.number(),
@@ -146,7 +149,7 @@ impl BlockFilter {
 
         let transactions = db.get_block_body(&header.hash());
         let transactions_size: usize = transactions.iter().map(|tx| tx.data().total_size()).sum();
-        let provider = WrappedChainDB::new(db);
+        let provider = WrappedChainDB::new(snapshot);
         let (filter_data, missing_out_points) = build_filter_data(provider, &transactions);
         for out_point in missing_out_points {
             warn!(
